@@ -1,4 +1,5 @@
 """C08 — the block store is a verified, gap-free, append-only chain."""
+from . import common
 from engine import query as Q
 from engine.terms import show, subterms
 from engine.guards import Atom, Walker, field_path, chain
@@ -55,7 +56,7 @@ def rule_verify_before_queue(ctx):
     arms = {}
     for bb in range(len(f.blocks)):
         si = T.switch_info(bb)
-        if si and si[0][0] == "discr" and si[0][1] in (("upvar", "block"),) :
+        if si and si[0][0] == "discr" and common.is_p(si[0][1], common.pnames(f, "::Block")):
             for tgt, labs in si[1].items():
                 for l in labs:
                     arms.setdefault(l, []).append((bb, tgt))
@@ -71,7 +72,7 @@ def rule_verify_before_queue(ctx):
     for p in push:
         args = T.args_of(p)
         clos = [a for a in args if a[0] == "closure"][0]
-        okb = ("upvar", "block") in clos[2] or any(x == ("upvar", "block") for x in subterms(clos))
+        okb = any(common.is_p(x, common.pnames(f, "::Block")) for x in subterms(clos))
         ctx.ob(R, "pushed block is the argument", okb, "the closure captures the verified `block` argument" if okb else "the pushed value is not the verified argument", f.loc())
     # FinalBlock::verify arguments: (b, genesis.hash(), epoch, schedule of that epoch)
     for c in T.calls():
